@@ -246,3 +246,29 @@ func sortStrings(s []string) {
 func (p *Prepared) RespRef() *dagen.Ref {
 	return dagen.RefStore(p.B.Root, p.RespStore, p.Sel, 0)
 }
+
+// Diverge reports whether the requestor's traversal (over both stores) and the
+// responder's own traversal differ somewhere within their first k link loads
+// (plus slack for links nobody has, which the two sides may count differently).
+// A skip count k sent when they differ is interpreted in the wrong units by
+// the responder: the class of known finding C02-K2.
+func (p *Prepared) Diverge(k int) bool {
+	if k <= 0 {
+		return false
+	}
+	rr := p.RespRef()
+	n := k + len(p.Ref.Missing)
+	for i := 0; i < n; i++ {
+		if i >= len(p.Ref.Loads) && i >= len(rr.Loads) {
+			return false
+		}
+		if i >= len(p.Ref.Loads) || i >= len(rr.Loads) {
+			return true
+		}
+		a, b := p.Ref.Loads[i], rr.Loads[i]
+		if a.Path != b.Path || a.Cid != b.Cid {
+			return true
+		}
+	}
+	return false
+}
